@@ -48,11 +48,14 @@ PROPS["C16"] = dict(
         mc("seq", "MC_C16", "MC_C16_%s.cfg" % tier, expand=G.under_provider(4)),
         gen("walk", G.c16_walks(40 if tier == "quick" else 600, 300)),
     ],
-    rule="all sequences of keyring mutators up to MaxLen (4 quick / 5 thorough) over an alphabet of 7 loads and "
-         "removals at first/second/last/out-of-range positions, free_bad, free_all, each followed by a full "
-         "read-back (item_get 0..3 and 7, count, find x3, error_any), enumerated by TLC from MC_C16; plus seeded "
-         "random walks of 300 operations through every load entry point. distinct = distinct script hashes; every "
-         "case is non-trivial (it contains at least one judged list operation).",
+    rule=
+         "all sequences of keyring mutators up to MaxLen (4 quick / 5 thorough) over an alphabet of 7 loads and removals"
+         " at first/second/last/out-of-range positions, free_bad, free_all, (keys that own provider objects among them; "
+         "every fourth sequence also under GnuTLS), each followed by a full read-back that starts and ends with a get at"
+         " index 2 and is not ascending (item_get 2, 3, 1, 0, 7, 2^32 + k, count, find x4, error_any, item_get 1, 2); "
+         "the driver re-reads the list from the last index down after every mutator, enumerated by TLC from MC_C16; plus"
+         " seeded random walks of 300 operations through every load entry point. distinct = distinct script hashes; "
+         "every case is non-trivial (it contains at least one judged list operation).",
     assumptions=ASSUME_COMMON,
     level_text="TLC explores every sequence of keyring operations up to the bound on the specification (list invariants checked there) and every one of those behaviours is replayed into libjwt; each observed list (ids by pointer identity, counts, find results, return values) must equal the model's after every operation. Exhaustive up to the bound, sampled (seeded walks) beyond it.",
     level_note="Bounded: sequences of <= 4 (quick) / 5 (thorough) mutators over a 2-kid alphabet; use-after-free and leaks are observed by ASan/LSan on the executed sequences only (leak check every 25 cases and at exit).",
@@ -77,9 +80,10 @@ PROPS["C15"] = dict(
          " test per transition, on builder claims and builder headers, and the same behaviours on the jwt_t inside a "
          "generate callback and a verify callback; (seq) all sequences up to length 3 (quick) / 4 (thorough) over a "
          "20-operation alphabet (incl. the empty string and non-UTF-8 strings as values); every request's jwt_value_t "
-         "carries a stale error code; (walk) seeded random walks of 200 operations with 64-bit extremes. After every "
-         "operation the whole header and claim objects are read back and compared with the model. distinct = distinct "
-         "script hashes.",
+         "carries a stale error code and the previous request's bits in its value union (only the member of the "
+         "request's type is written, as the public macros do); (walk) seeded random walks of 200 operations with 64-bit "
+         "extremes. After every operation the whole header and claim objects are read back and compared with the model. "
+         "distinct = distinct script hashes.",
     assumptions=ASSUME_COMMON,
     level_text="TLC explores the complete state graph of the typed-map specification (78 states, every operation "
                "from every state) and checks the map laws on it; each transition is replayed into libjwt at four "
@@ -138,7 +142,8 @@ PROPS["C03"] = dict(
 
 PROPS["C01"] = dict(
     level="model_checking", exhaustive=True,
-    stages=lambda tier, seed: [mc("matrix", "MC_C01", "MC_C01_%s.cfg" % tier, expand=G.replicate(3 if tier == "quick" else 300))],
+    stages=lambda tier, seed: [mc("matrix", "MC_C01", "MC_C01_%s.cfg" % tier, expand=G.replicate(3 if tier == "quick" else 300)),
+                               gen("rotation", G.c01_rotation(2 if tier == "quick" else 10), dopts=dict(env=G.ZEROQ))],
     rule=
          "matrix from MC_C01: (key, algorithm) pairs covering oct, RSA (PKCS1 and PSS, incl. an RSA-PSS typed key), "
          "P-256/384/521, secp256k1, Ed25519, Ed448, plus HS* pinned explicitly on RSA/EC/OKP public keys (admitted by "
@@ -149,7 +154,10 @@ PROPS["C01"] = dict(
          "ES: r and s zero-extended to wider widths, DER; HS: HMAC under empty and all-zero keys and, for public keys, "
          "under the PEM text; a genuine MAC that begins with / contains a zero octet offered with every later octet "
          "changed} + header/payload altered after signing; each cell concretised 3 (quick) / 300 (thorough) times with "
-         "seed-drawn positions. Signatures are made by the driver's own signer. distinct = distinct cells x reps.",
+         "seed-drawn positions. Signatures are made by the driver's own signer. Stage 'rotation': a checker holds public"
+         " key A and accepts A's token; A's keyring is freed, key B loaded and given to the checker: A's token must be "
+         "refused and B's accepted, seven key pairs x both providers x 2..3 (quick) / up to 11 (thorough) rotations, run"
+         " with a zero ASan quarantine so that freed addresses are reused at once. distinct = distinct cells x reps.",
     assumptions=ASSUME_COMMON + ["cryptography is treated as perfect: a mutated valid signature is assumed invalid (by construction, not by TLC)"],
     level_text="Exhaustive over the abstract cells (key class x algorithm x provider x signature/alteration class); "
                "within a cell bytes are sampled. Accepting any cell whose class is not 'valid signature by the "
@@ -189,9 +197,10 @@ PROPS["C14"] = dict(
          "valid, exp/nbf of wrong type, altered payload) under HS256 and RS256 (and ES256 in thorough), each as ok-fail-"
          "ok-fail-clear-fail on one checker; 12 policy causes (no key, refused setkey, iss/aud mismatch, callback error,"
          " callback-selected inadmissible key/alg, key below floor, wrong family, unknown alg attribute); 17 builder "
-         "causes; 23 JWK defects; value set/get calls incl. string values that are not UTF-8 on a fresh name, on an "
-         "existing one with and without replace, and from a generate callback (every request carries a stale error code "
-         "in its jwt_value_t). distinct = distinct scripts.",
+         "causes, plus five keys that failed to import but still say \"private\" given to the builder by setkey and by its"
+         " callback under four algorithms; 23 JWK defects; value set/get calls incl. string values that are not UTF-8 on"
+         " a fresh name, on an existing one with and without replace, and from a generate callback (every request "
+         "carries a stale error code in its jwt_value_t). distinct = distinct scripts.",
     assumptions=ASSUME_COMMON,
     level_text="Every externally reachable failure cause the specification knows (its reject classes) is enumerated by "
                "TLC and executed; after each call the return value, the error flag and the message-non-empty bit "
@@ -215,9 +224,10 @@ PROPS["C04"] = dict(
          "(prefix, suffix, case, empty, non-ASCII, embedded NUL, wrong type, absent; values of 255..65536 characters "
          "that are equal, differ in the last character only, or are a prefix of one another) for iss/sub/aud, all "
          "combinations of three string checks; all sequences of up to 2 (quick) / 3 (thorough) configuration calls over "
-         "a 12-call alphabet followed by five probe tokens; every case with an unsigned and an HS256-signed token. Plus "
-         "seeded random cases with uniformly drawn 64-bit exp/nbf, clocks and leeways. 64-bit values are compared in TLC"
-         " as limb triples (Wide.tla). distinct = distinct scripts.",
+         "a 14-call alphabet (incl. refused calls: leeway for iat, claim_set / claim_del for exp and nbf) followed by "
+         "five probe tokens; every case with an unsigned and an HS256-signed token. Plus seeded random cases with "
+         "uniformly drawn 64-bit exp/nbf, clocks and leeways. 64-bit values are compared in TLC as limb triples "
+         "(Wide.tla). distinct = distinct scripts.",
     assumptions=ASSUME_COMMON,
     level_text="Exhaustive on the boundary lattice and the bounded configuration histories (TLC shows the reference "
                "satisfies C04 there), every case executed against libjwt and judged in both directions: accepted "
@@ -331,9 +341,7 @@ def _c12_stages(tier, seed):
     for i, v in enumerate(_ENVS):
         st.append(gen("env%d" % i, (lambda vv: (lambda seed: [[dict(op="OpsEnv", want=vv)]]))(v), dopts=dict(env={"JWT_CRYPTO": v}), exhaustive=True))
     st.append(gen("envunset", lambda seed: [[dict(op="OpsEnv", want="~")]], exhaustive=True))
-    st.append(gen("rotation", G.c12_rotation(2 if tier == "quick" else 12),
-                  dopts=dict(env={"ASAN_OPTIONS": "detect_leaks=1:leak_check_at_exit=0:abort_on_error=0:exitcode=23:allocator_may_return_null=1:"
-                                                  "detect_stack_use_after_return=0:quarantine_size_mb=0:thread_local_quarantine_size_kb=0"})))
+    st.append(gen("rotation", G.c12_rotation(2 if tier == "quick" else 12), dopts=dict(env=G.ZEROQ)))
     return st
 
 
@@ -351,10 +359,11 @@ PROPS["C12"] = dict(
          "99; (D) one driver process per JWT_CRYPTO value {openssl, gnutls, GnuTLS, 'gnutls ', mbedtls, '', x, "
          "opensslgnutls, unset}. (E) history: an unusable JWKS member, a refused RS256 and a refused ES512 token under "
          "either provider before the verdict comparison. Each matrix cell is concretised 2 (quick) / 60 (thorough) "
-         "times. Stage 'rotation': sign with key A, free its keyring, load key B (same type for six pairs, another type "
-         "for three), sign, verify under both providers, 2..3 (quick) / up to 13 (thorough) rotations per script - run "
-         "with a zero ASan quarantine so that the freed key's address is reused at once; the token must carry the "
-         "current key's signature and both providers must accept it.",
+         "times. (F) private OKP keys whose x member is ANOTHER key's public half: identical tokens from both providers,"
+         " mutual acceptance, acceptance by the true public key. Stage 'rotation': sign with key A, free its keyring, "
+         "load key B (same type for six pairs, another type for three), sign, verify under both providers, 2..3 (quick) "
+         "/ up to 13 (thorough) rotations per script - run with a zero ASan quarantine so that the freed key's address "
+         "is reused at once; the token must carry the current key's signature and both providers must accept it.",
     assumptions=ASSUME_COMMON,
     level_text="TLC enumerates the matrix and checks on the specification that verdicts and deterministic tokens do "
                "not depend on the provider variable and that the provider changes only on an exact name/id; each "
@@ -398,6 +407,7 @@ PROPS["C07"] = dict(
     stages=lambda tier, seed: [
         mc("defects", "MC_C07", "MC_C07_%s.cfg" % tier),
         gen("fuzz", G.c07_fuzz(300 if tier == "quick" else 20000, 60)),
+        gen("alloc", G.c07_custom_alloc(), dopts=dict(extra=("--track-alloc",))),
     ],
     rule=
          "(defects) from MC_C07: ten valid baselines (oct, RSA private/public/PSS, P-256 private, P-384, P-521, "
@@ -411,7 +421,11 @@ PROPS["C07"] = dict(
          "tokens (quoted by the parser's error text) and in member values through every entry point, seeded random "
          "bytes, random JSON over JWK member names and byte-mutated JWKS texts (mutations insert conversions too), "
          "judged only for 'returns, no sanitizer report, no leak, each new item errored-with-message or usable'. "
-         "ASan+UBSan, leak check every 10 cases. distinct = distinct scripts.",
+         "ASan+UBSan, leak check every 10 cases. (alloc) keys of every type, well-formed and defective, through every "
+         "entry point and through find / free_bad / item_free / free_all / jwks_free under both providers with an "
+         "application allocator that is not libc's: the driver tracks every block it handed out, and a block it never "
+         "handed out that reaches its free() from inside a library call is an abort. Defect classes include member "
+         "values with characters beyond ASCII (valid UTF-8). distinct = distinct scripts.",
     assumptions=ASSUME_COMMON,
     level_text="The JWK defect lattice (document class x key type x member x value class) is enumerated completely by "
                "TLC and executed: set error and no items for non-JSON, exactly one item per element in order, every "
@@ -428,14 +442,19 @@ PROPS["C08"] = dict(
         mc("matrix", "MC_C08", "MC_C08_%s.cfg" % tier),
         mc("fresh", "MC_C08", "MC_C08_%s.cfg" % tier, expand=G.c08_fresh(1 if tier == "quick" else 4, every=9 if tier == "quick" else 2)),
     ],
-    rule="from MC_C08: every fixture key (RSA 512..4096 incl. odd sizes, P-256/384/521, secp256k1, Ed25519, Ed448; "
-         "oct 1..512 bytes) x private and public form x metadata (alg matching / none / unknown / foreign, kid, use "
-         "sig/enc/other, key_ops subsets incl. unknown names) with the default encoding, and x integer encoding "
-         "(fixed width, minimal, zero-padded by 1 and 3 bytes) x extra-member set (none, members of other key types, "
-         "unknown members) with plain metadata; as a single JWK and inside a JWKS; and 'history' cells: each of five defective keys (point not on the curve, unknown curve, short coordinate, incomplete RSA private key, short OKP key) imported before a well-formed key of every type - in the same set and by an earlier call on the same thread. Stage 'fresh' repeats every 9th "
-         "(quick) / every 2nd (thorough, 4 times) cell with key material generated on the spot (OpenSSL keygen, fresh "
-         "oct bytes). The driver exports with its own exporter, parses the item's PEM with OpenSSL and compares "
-         "public and private components with the exported key. distinct = distinct scripts.",
+    rule=
+         "from MC_C08: every fixture key (RSA 512..4096 incl. odd sizes, P-256/384/521, secp256k1, Ed25519, Ed448; oct "
+         "1..512 bytes) x private and public form x metadata (alg matching / none / unknown / foreign, kid, use "
+         "sig/enc/other, key_ops subsets incl. unknown names) with the default encoding, and x integer encoding (fixed "
+         "width, minimal, zero-padded by 1 and 3 bytes) x extra-member set (none, members of other key types, unknown "
+         "members; unknown members of every JSON type - true, false, number, real, null, object - for every key type) "
+         "with plain metadata; OKP keys whose x or d begins with a zero octet, oct keys whose first / last octet is NUL,"
+         " newline, space, '=' or 0xff; as a single JWK and inside a JWKS; and 'history' cells: each of five defective "
+         "keys (point not on the curve, unknown curve, short coordinate, incomplete RSA private key, short OKP key) "
+         "imported before a well-formed key of every type - in the same set and by an earlier call on the same thread. "
+         "Stage 'fresh' repeats every 9th (quick) / every 2nd (thorough, 4 times) cell with key material generated on "
+         "the spot (OpenSSL keygen, fresh oct bytes). The driver exports with its own exporter, parses the item's PEM "
+         "with OpenSSL and compares public and private components with the exported key. distinct = distinct scripts.",
     assumptions=ASSUME_COMMON + ["equality of key components (big numbers, octets) is computed by the driver's projection against the key it exported; TLC judges the projected record"],
     level_text="The structural matrix (type x size x form x metadata x encoding x extras) is enumerated by TLC and each "
                "cell executed; every reported attribute must equal what the JWK states and the key material must "
